@@ -232,7 +232,7 @@ class Func:
 
 class Record:
     __slots__ = ('qualname', 'id', 'fields', 'file', 'line', 'bases', 'methods', 'kind',
-                 'static_vars')
+                 'static_vars', 'mutable_fields')
 
     def __init__(self):
         self.qualname = None
@@ -244,6 +244,7 @@ class Record:
         self.methods = []     # (name, sig, is_const, is_static, access)
         self.kind = None
         self.static_vars = []  # (name, type)
+        self.mutable_fields = []   # names of fields declared `mutable`
 
 
 class Program:
